@@ -35,10 +35,11 @@ structure Hint where
   style : Style := {}
   deriving DecidableEq, Repr, Inhabited
 
-/-- A line of code followed by `pad + 1` spaces and its hint comment (no comment when `hints = []`). -/
+/-- A line of code followed by `pad` spaces (none: the hint comment is glued to the code, F45) and
+its hint comment (no comment when `hints = []`). -/
 structure CodeLine where
   code : Str
-  pad : Nat := 0
+  pad : Nat := 1
   hints : List Hint := []
   deriving DecidableEq, Repr, Inhabited
 
@@ -66,7 +67,7 @@ def renderHints (hs : List Hint) : Str :=
 
 def renderCode (c : CodeLine) : Str :=
   if c.hints = [] then c.code
-  else c.code ++ (List.replicate (c.pad + 1) ' ' ++ (m13 ++ renderHints c.hints))
+  else c.code ++ (List.replicate c.pad ' ' ++ (m13 ++ renderHints c.hints))
 
 def renderLine : Line → Str
   | .code c => renderCode c
@@ -274,7 +275,7 @@ none, then the first token). -/
 def renderLineS : Line × MarkerStyle → Str
   | (.code c, ms) =>
     if c.hints = [] then c.code
-    else c.code ++ (List.replicate (c.pad + 1) ' ' ++ (renderMarker ms ++
+    else c.code ++ (List.replicate c.pad ' ' ++ (renderMarker ms ++
       (List.replicate ms.after ' ' ++ (renderHints c.hints).drop 1)))
   | (.isolated indent L, ms) =>
     List.replicate indent ' ' ++ (renderMarker ms ++ (List.replicate ms.after ' ' ++ L))
@@ -345,7 +346,7 @@ def wOpen (L : Str) : Hint := ⟨.opn false, L, {}⟩
 def wClose (L : Str) : Hint := ⟨.cls, L, {}⟩
 
 def CodeLine.addHints (c : CodeLine) (hs : List Hint) : CodeLine :=
-  { code := c.code, pad := if c.hints = [] then 0 else c.pad, hints := c.hints ++ hs }
+  { code := c.code, pad := if c.hints = [] then 1 else c.pad, hints := c.hints ++ hs }
 
 def centrifuged (ws : List Str) : List CodeLine → List CodeLine
   | [] => []
